@@ -120,6 +120,21 @@ pub fn encode(set: &TileSet, layout: &Layout, path: &Path) -> Result<(), String>
 			tx.execute("INSERT INTO metadata (name, value) VALUES (?1, ?2)", params![k, v]).map_err(|e| e.to_string())?;
 		}
 	}
+	// the optional `json` row (MBTiles 1.3: required with vector_layers for pbf, other formats MAY
+	// carry one for applications that use JSON metadata): empty object, statistics only, or
+	// layers plus statistics
+	match (layout.seed >> 14) % 6 {
+		0 => {
+			tx.execute("INSERT INTO metadata (name, value) VALUES ('json', '{}')", []).map_err(|e| e.to_string())?;
+		}
+		1 => {
+			tx.execute("INSERT INTO metadata (name, value) VALUES ('json', '{\"tilestats\":{\"layerCount\":0,\"layers\":[]}}')", []).map_err(|e| e.to_string())?;
+		}
+		2 => {
+			tx.execute("INSERT INTO metadata (name, value) VALUES ('json', '{\"tilestats\":{\"layerCount\":1},\"vector_layers\":[{\"id\":\"a\",\"fields\":{\"k\":\"String\"}}]}')", []).map_err(|e| e.to_string())?;
+		}
+		_ => {}
+	}
 	// the informative rows minzoom / maxzoom / bounds / center as other writers add them: exact,
 	// absent, or stale (levels were appended or removed later without touching the metadata)
 	let levels: Vec<u8> = set.tiles.iter().filter(|(_, b)| !b.is_empty()).map(|(c, _)| c.z).collect::<std::collections::BTreeSet<u8>>().into_iter().collect();
